@@ -117,8 +117,16 @@ def c11_4(c: Ctx) -> None:
                 c.fail(u, f'`raise {e.id}` not dominated by `raise_if_any and <errors>`: guard is `{U(guard_if.test)[:60]}`', 'a handler error is raised although raise_if_any is false (or not raised although it is true)', node=rn.ast, witness=c.path(g.entry, p) if p else [])
         elif isinstance(e, ast.Call) and U(e.func) in ('ValueError',):
             c.ok(where(u, rn.ast), 'raise ValueError(...) is the raise_if_none arm (C12.4)')
-        elif isinstance(e, ast.Call) and U(e.func) == 'Exception' and isinstance(q.enclosing(rn.ast, (ast.If,)), ast.If) and 'isinstance' in U(q.enclosing(rn.ast, (ast.If,)).test):
-            c.ok(where(u, rn.ast), 'fallback wrapper only for non-exception error values (else-branch of isinstance(error, BaseException))')
+        elif isinstance(e, ast.Call) and U(e.func) == 'Exception' and err_defs:
+            # fallback wrapper: allowed only where the error value is known not to be an exception object
+            en = sorted(err_defs)[0]
+            atoms = {f'isinstance({x}, BaseException)' for x in err_defs}
+            f3 = Facts(lambda a: a in atoms, cg=c.cg, unit=u)
+            okf = any(q.guard_search(g, rn, f'not isinstance({x}, BaseException)', f3) is None for x in err_defs)
+            if okf:
+                c.ok(where(u, rn.ast), 'fallback wrapper only for non-exception error values (reached only when isinstance(error, BaseException) is false)')
+            else:
+                c.fail(u, f'wrapper raised where the error may be an exception object: {q.stmt_text(rn.ast, 70)}', 'the accessor raises a wrapper instead of the original handler error', node=rn.ast)
         else:
             c.fail(u, f'unexpected raise: {q.stmt_text(rn.ast, 80)}', 'the accessor raises something other than the original handler error / the raise_if_none ValueError', node=rn.ast)
     if n_orig == 0:
